@@ -495,3 +495,10 @@ class CopyForeignSuite(Suite):
 
 
 SUITES = [SshSuite(), CopySuite(), CopyForeignSuite()]
+
+
+def extra_obligations(tier):
+    """the translated part of the model: SSHConnector._connect's command line, regenerated from the current source and
+    re-proved equal to ssh_argv (the function the parsing theorems are about)"""
+    from vlib import gen
+    return gen.obligations(only=["gen_ssh_argv_is_the_model"])
